@@ -38,6 +38,9 @@ def request_pool(rng, policy):
         ("chunked", req(b"POST", b"/c", headers=[HOST, (b"Transfer-Encoding", b"chunked")], chunks=[b"abc", b"de"])),
         ("chunked", req(b"PUT", b"/c", headers=[HOST, (b"Transfer-Encoding", b"chunked")], chunks=[], trailers=[(b"T", b"1")])),
         ("head", req(b"HEAD", b"/h", headers=[HOST])),
+        # HEAD with close semantics: the connection must be closed after the (body-less) response like after any other
+        ("close", req(b"HEAD", b"/h", headers=[HOST, (b"Connection", rng.choice([b"close", b"Keep-Alive, CLOSE"]))])),
+        ("get10", req(b"HEAD", b"/h", version=b"1.0")),
         ("expect-chunked", req(b"POST", b"/e", headers=[HOST, (b"Expect", b"100-continue"), (b"Transfer-Encoding", b"chunked")], chunks=[b"xyz"])),
         ("expect-cl", req(b"POST", b"/e", headers=[HOST, (b"Expect", b"100-Continue"), (b"Content-Length", b"4")], body=b"body")),
         ("expect-close", req(b"POST", b"/e", headers=[HOST, (b"Expect", b"100-continue"), (b"Connection", b"close"), (b"Content-Length", b"4")], body=b"body")),
